@@ -518,4 +518,11 @@ def registerTopology (reg : List Topo) (t : Topo) : Except Err (List Topo) :=
       else if sortInts t.outgoing != sortInts r.outgoing then .error .valueError
       else .ok (addTopo reg t.normalize)
 
+/-- a HISTORY of `register_topology` calls on one adapter: a rejected call (any error) leaves the
+registered set unchanged and is counted; returns (registered set, number of rejected calls) -/
+def registerHistory (ts : List Topo) : List Topo × Nat :=
+  ts.foldl (fun acc t => match registerTopology acc.1 t with
+    | .ok reg => (reg, acc.2)
+    | .error _ => (acc.1, acc.2 + 1)) ([], 0)
+
 end Ampverif.Model.Topology
